@@ -22,6 +22,8 @@ type Layout struct {
 	FrameDurs      []uint32 // if set: video frame durations cycle through these values (variable frame rate) instead of FrameDur
 	Thumbs         int      // number of thumbnail images per loop (0 = none); their duration is loop/Thumbs, whatever the video segments are
 	ImageBeforeTxt bool     // MPD order audio, video, image, text (instead of video, audio, text, image)
+	AudioOnly      bool     // the MPD has no video AdaptationSet (radio): the audio track is the reference track
+	Audio2AC3      bool     // a second audio AdaptationSet (AC-3, 1536-sample frames, same 48 kHz timescale) built from bundled bbb_hevc_ac3_8s
 	TextBothSizes  bool     // subtitle segments carry the sample size both as tfhd default_sample_size and in the trun
 	TextLastShort  uint32   // the last subtitle segment is this many ms shorter than the video segment it goes with
 	LastTfdtJump   uint64   // the last video segment's tfdt is this many ticks later than the end of the one before (a gap the sample durations do not show)
@@ -311,14 +313,16 @@ func Generate(root, src string, l Layout) error {
 <MPD xmlns="urn:mpeg:dash:schema:mpd:2011" profiles="urn:mpeg:dash:profile:isoff-live:2011" minBufferTime="PT2S" type="static" mediaPresentationDuration="PT%.3fS" id="gen">
  <Period id="one" start="PT0S">
 `, float64(total)/float64(l.VideoTS))
-	fmt.Fprintf(&b, `  <AdaptationSet contentType="video" id="1" mimeType="video/mp4" segmentAlignment="true" startWithSAP="1">%s`, tmpl(l.VideoTS, vsegs))
-	for _, id := range vids {
-		if l.ExtraOwnAS && id == l.ExtraVideo {
-			continue
+	if !l.AudioOnly {
+		fmt.Fprintf(&b, `  <AdaptationSet contentType="video" id="1" mimeType="video/mp4" segmentAlignment="true" startWithSAP="1">%s`, tmpl(l.VideoTS, vsegs))
+		for _, id := range vids {
+			if l.ExtraOwnAS && id == l.ExtraVideo {
+				continue
+			}
+			fmt.Fprintf(&b, `<Representation id="%s" codecs="avc1.64001e" bandwidth="300000" width="640" height="360" frameRate="30"/>`, id)
 		}
-		fmt.Fprintf(&b, `<Representation id="%s" codecs="avc1.64001e" bandwidth="300000" width="640" height="360" frameRate="30"/>`, id)
+		b.WriteString("</AdaptationSet>\n")
 	}
-	b.WriteString("</AdaptationSet>\n")
 	if l.ExtraOwnAS && l.ExtraVideo != "" {
 		fmt.Fprintf(&b, `  <AdaptationSet contentType="video" id="4" mimeType="video/mp4" segmentAlignment="true" startWithSAP="1">%s<Representation id="%s" codecs="avc1.64001e" bandwidth="600000" width="640" height="360" frameRate="30"/></AdaptationSet>
 `, tmpl(l.VideoTS, esegs), l.ExtraVideo)
@@ -405,6 +409,8 @@ func ExtraLayouts() []Layout {
 		// subtitle segments that signal their sample size in tfhd and in trun
 		{Name: "x_text_both_sizes", VideoTS: 90000, FrameDur: 3000, SegFrames: []int{60, 60, 60, 60}, Text: true, TextBothSizes: true},
 		// representation ids with characters that are unusual in file names, and that differ in such a character only
+		// no video: the audio track is the reference track (375 AAC frames = 8 s exactly)
+		{Name: "x_audio_only", VideoTS: 90000, FrameDur: 3000, SegFrames: []int{60, 60, 60, 60}, AudioSegs: []int{94, 94, 94, 93}, AudioOnly: true},
 		{Name: "x_rep_ids", VideoTS: 90000, FrameDur: 3000, SegFrames: []int{60, 60, 60, 60}, AudioSegs: []int{94, 94, 94, 93}, VideoID: "V300:b", ExtraVideo: "V300_b"},
 		{Name: "x_two_video_grids", VideoTS: 90000, FrameDur: 3000, SegFrames: []int{60, 60, 60, 60}, ExtraVideo: "V8s", ExtraSegFrames: []int{240}, ExtraOwnAS: true, UseTime: true},
 	}
